@@ -1130,6 +1130,137 @@ fn run_ctx_case(id: &str, fields: &[Sx]) -> Result<String, String> {
 }
 
 ////////////////////////////////////////////////////////////////////////////////
+// hctx-case: the whole Context API as a register machine
+////////////////////////////////////////////////////////////////////////////////
+
+enum HOp {
+    New(usize, Option<u32>),
+    Clone(usize, usize),
+    Pushed(usize, usize, String),
+    Push(usize, String),
+    Locked(usize, bool),
+    NoSink(usize, usize),
+    NoLocal(usize, usize),
+    TakeSink(usize, usize),
+    ReplSink(usize, usize),
+    TakeLocal(usize, usize),
+    ReplLocal(usize, usize),
+    Send(usize, u32),
+    Apply(usize, u32),
+}
+
+fn as_reg(sx: &Sx, bound: usize) -> Result<usize, String> {
+    let n = as_u32(sx)? as usize;
+    if n < bound { Ok(n) } else { Err(format!("register {n} out of range")) }
+}
+
+fn parse_hop(sx: &Sx) -> Result<HOp, String> {
+    let (head, args) = head_args(sx)?;
+    match (head, args) {
+        ("new", [i, s]) => {
+            let sink = match as_atom(s)? { "-" => None, a => Some(a.parse::<u32>().map_err(|e| e.to_string())?) };
+            Ok(HOp::New(as_reg(i, 4)?, sink))
+        }
+        ("clone", [i, j]) => Ok(HOp::Clone(as_reg(i, 4)?, as_reg(j, 4)?)),
+        ("pushed", [i, j, t]) => Ok(HOp::Pushed(as_reg(i, 4)?, as_reg(j, 4)?, as_atom(t)?.to_string())),
+        ("push", [i, t]) => Ok(HOp::Push(as_reg(i, 4)?, as_atom(t)?.to_string())),
+        ("locked", [i, b]) => Ok(HOp::Locked(as_reg(i, 4)?, as_bool(b)?)),
+        ("nosink", [i, j]) => Ok(HOp::NoSink(as_reg(i, 4)?, as_reg(j, 4)?)),
+        ("nolocal", [i, j]) => Ok(HOp::NoLocal(as_reg(i, 4)?, as_reg(j, 4)?)),
+        ("takesink", [i, k]) => Ok(HOp::TakeSink(as_reg(i, 4)?, as_reg(k, 2)?)),
+        ("replsink", [i, k]) => Ok(HOp::ReplSink(as_reg(i, 4)?, as_reg(k, 2)?)),
+        ("takelocal", [i, l]) => Ok(HOp::TakeLocal(as_reg(i, 4)?, as_reg(l, 2)?)),
+        ("repllocal", [i, l]) => Ok(HOp::ReplLocal(as_reg(i, 4)?, as_reg(l, 2)?)),
+        ("send", [i, n]) => Ok(HOp::Send(as_reg(i, 4)?, as_u32(n)?)),
+        ("apply", [i, n]) => Ok(HOp::Apply(as_reg(i, 4)?, as_u32(n)?)),
+        _ => Err(format!("bad hctx op `{head}`")),
+    }
+}
+
+fn run_hctx_case(id: &str, fields: &[Sx]) -> Result<String, String> {
+    let f = Fields::parse(fields)?;
+    f.only(&["ops"])?;
+    let ops: Vec<HOp> = f.get("ops")?.iter().map(parse_hop).collect::<Result<_, _>>()?;
+
+    let events: RefCell<Vec<String>> = RefCell::new(Vec::new());
+    // what the sinks received: (sink id, trail)
+    let sunk: Rc<RefCell<Vec<(u32, Vec<String>)>>> = Rc::new(RefCell::new(Vec::new()));
+    let finished = guard(|| {
+        let mut regs: Vec<Cx> = (0..4).map(|_| Context::empty()).collect();
+        let mut ks: Vec<Option<ErrorSink<'static>>> = vec![None, None];
+        let mut ls: Vec<Option<tephra::LocalContext<'static, Scn>>> = vec![None, None];
+        for op in &ops {
+            match op {
+                HOp::New(i, sink) => {
+                    regs[*i] = match sink {
+                        Some(sid) => {
+                            let rec = Rc::clone(&sunk);
+                            let sid = *sid;
+                            let sink: ErrorSink<'static> =
+                                Box::new(move |e: Box<dyn ParseError>| rec.borrow_mut().push((sid, trail(&*e))));
+                            Context::new(Some(sink))
+                        }
+                        None => Context::empty(),
+                    };
+                }
+                HOp::Clone(i, j) => { let c = regs[*i].clone(); regs[*j] = c; }
+                HOp::Pushed(i, j, tag) => { let c = regs[*i].clone().pushed(transform(tag)); regs[*j] = c; }
+                HOp::Push(i, tag) => regs[*i].push(transform(tag)),
+                HOp::Locked(i, b) => { let c = regs[*i].clone().locked(*b); regs[*i] = c; }
+                HOp::NoSink(i, j) => { let c = regs[*i].without_error_sink(); regs[*j] = c; }
+                HOp::NoLocal(i, j) => { let c = regs[*i].without_local_context(); regs[*j] = c; }
+                HOp::TakeSink(i, k) => { ks[*k] = regs[*i].take_error_sink(); }
+                HOp::ReplSink(i, k) => {
+                    if let Some(s) = ks[*k].take() {
+                        ks[*k] = regs[*i].replace_error_sink(s);
+                    }
+                }
+                HOp::TakeLocal(i, l) => { ls[*l] = Some(regs[*i].take_local_context()); }
+                HOp::ReplLocal(i, l) => {
+                    // an empty slot holds the empty local context
+                    let new = ls[*l].take().unwrap_or_else(|| Context::<Scn>::empty().take_local_context());
+                    ls[*l] = Some(regs[*i].replace_local_context(new));
+                }
+                HOp::Send(i, n) => {
+                    let before = sunk.borrow().len();
+                    let ev = match regs[*i].send_error(Box::new(Probe(*n))) {
+                        Ok(()) => {
+                            let sunk = sunk.borrow();
+                            if sunk.len() > before {
+                                let (sid, tags) = sunk.last().expect("delivered");
+                                event("send", *n, Some(&format!("sink{sid}")), tags)
+                            } else {
+                                event("send", *n, Some("lost"), &[])
+                            }
+                        }
+                        Err(e) => event("send", *n, Some("ret"), &trail(&*e)),
+                    };
+                    events.borrow_mut().push(ev);
+                }
+                HOp::Apply(i, n) => {
+                    let r: Res<()> = Err(Box::new(Probe(*n)));
+                    let ev = match r.apply_context(regs[*i].clone()) {
+                        Err(e) => event("apply", *n, None, &trail(&*e)),
+                        Ok(_) => event("apply", *n, Some("ok"), &[]),
+                    };
+                    events.borrow_mut().push(ev);
+                }
+            }
+        }
+    });
+
+    let mut out = format!("({id}");
+    let evs = events.try_borrow().map(|e| e.clone()).unwrap_or_default();
+    push_all(&mut out, &evs);
+    if finished.is_none() {
+        out.push(' ');
+        out.push_str(PANIC);
+    }
+    out.push(')');
+    Ok(out)
+}
+
+////////////////////////////////////////////////////////////////////////////////
 // parse-case: values
 ////////////////////////////////////////////////////////////////////////////////
 
@@ -1759,6 +1890,7 @@ fn run_case(sx: &Sx) -> Result<String, String> {
     let run: fn(&str, &[Sx]) -> Result<String, String> = match head {
         "lex-case" => run_lex_case,
         "ctx-case" => run_ctx_case,
+        "hctx-case" => run_hctx_case,
         "parse-case" => run_parse_case,
         other => return Err(format!("unknown case kind `{other}`")),
     };
